@@ -715,6 +715,8 @@ func genApiGates(repo, out string) {
 		{"internal/workerapi/server.go", "Ack"},
 		{"internal/workerapi/server.go", "Nack"},
 		{"internal/workerapi/server.go", "Extend"},
+		{"internal/admin/http.go", "handleMessagesPublish"},
+		{"internal/admin/http.go", "handleApplicationEndpointPublish"},
 	}
 	var rows []string
 	for _, t := range targets {
@@ -755,7 +757,7 @@ func genApiGates(repo, out string) {
 			case *ast.ReturnStmt:
 				evs = append(evs, ev{fset.Position(x.Pos()).Offset, "return", ""})
 			case *ast.CallExpr:
-				if se, ok := x.Fun.(*ast.SelectorExpr); ok && rootIs(se.X) {
+				if se, ok := x.Fun.(*ast.SelectorExpr); ok && (rootIs(se.X) || se.Sel.Name == "Enqueue" || se.Sel.Name == "EnqueueBatch") {
 					evs = append(evs, ev{fset.Position(x.Pos()).Offset, "call", se.Sel.Name})
 				}
 			}
